@@ -20,13 +20,13 @@ ID = "C17"
 CASES = {"quick": 640, "thorough": 8000}
 FLOOR = {"quick": 450, "thorough": 6000}
 FLOOR_COUNTERS = {
-    "quick": {"queries_sharing_a_coordinate": 150, "bandwidths_judged": 3000, "queries_judged": 2500, "assignments_judged": 30000, "degenerate_cloud_models": 80, "periodic_models": 100, "relation_pairs": 900, "oas_calls_seen": 3000, "estimators_with_a_past": 120, "metric_given_explicitly": 200, "models_with_zero_weights": 40, "evaluations_above_2^22_grid_pairs_x_queries": 2, "weights_sharing_memory_with_the_descriptors": 12, "fits_repeated_after_an_abort_inside_the_metric": 8},
-    "thorough": {"queries_sharing_a_coordinate": 2000, "bandwidths_judged": 45000, "queries_judged": 35000, "assignments_judged": 450000, "degenerate_cloud_models": 1000, "periodic_models": 1300, "relation_pairs": 12000, "oas_calls_seen": 45000, "estimators_with_a_past": 1800, "metric_given_explicitly": 2500, "models_with_zero_weights": 500, "evaluations_above_2^22_grid_pairs_x_queries": 18, "weights_sharing_memory_with_the_descriptors": 250, "fits_repeated_after_an_abort_inside_the_metric": 120},
+    "quick": {"queries_within_1e-6_relative_of_a_descriptor": 80, "queries_sharing_a_coordinate": 150, "bandwidths_judged": 3000, "queries_judged": 2500, "assignments_judged": 30000, "degenerate_cloud_models": 80, "periodic_models": 100, "relation_pairs": 900, "oas_calls_seen": 3000, "estimators_with_a_past": 120, "metric_given_explicitly": 200, "models_with_zero_weights": 40, "evaluations_above_2^22_grid_pairs_x_queries": 2, "weights_sharing_memory_with_the_descriptors": 12, "fits_repeated_after_an_abort_inside_the_metric": 8},
+    "thorough": {"queries_within_1e-6_relative_of_a_descriptor": 1200, "queries_sharing_a_coordinate": 2000, "bandwidths_judged": 45000, "queries_judged": 35000, "assignments_judged": 450000, "degenerate_cloud_models": 1000, "periodic_models": 1300, "relation_pairs": 12000, "oas_calls_seen": 45000, "estimators_with_a_past": 1800, "metric_given_explicitly": 2500, "models_with_zero_weights": 500, "evaluations_above_2^22_grid_pairs_x_queries": 18, "weights_sharing_memory_with_the_descriptors": 250, "fits_repeated_after_an_abort_inside_the_metric": 120},
 }
 RULE = (
     "case = descriptor cloud (1-4 dimensions, 30-160 points; multi-modal / anisotropic / collinear / constant coordinate / "
     "generic), weights None|random, grid = FPS-selected descriptors | random subset | off-sample points (4-16), fpoints in "
-    "(0.02,0.9) or fspread in (0.05,3), optional cell, 6 queries (non-descriptors). non-trivial = model produced and >= 1 "
+    "(0.02,0.9) or fspread in (0.05,3), optional cell, 6 queries (non-descriptors; 1 case in 4: one of them within a relative 5e-7 of a descriptor). non-trivial = model produced and >= 1 "
     "relation judged; distinct by data hash."
 )
 ASSUMPTIONS = [
@@ -108,6 +108,11 @@ def gen(rng, tier, index):
     if alias_w:  # the weights will be handed over as a VIEW of a (positive) descriptor column
         D[:, -1] = np.abs(D[:, -1]) + 0.1
         Qq = D[rng.integers(0, n, size=nq)] + 0.37 * D.std(axis=0).mean() * rng.normal(size=(nq, d))
+    near = bool(index % 4 == 1 and not bigq)
+    if near:
+        # a query that is not a descriptor but lies within a relative 5e-7 of one (the same configuration written out
+        # and read back with seven digits): only an identical descriptor is left out of the sum
+        Qq[0] = D[index % n] * (1.0 + 2.0**-21) + 2.0**-24 * float(D.std(axis=0).mean())
     loc = {"fpoints": float(rng.uniform(0.02, 0.9))} if rng.random() < 0.6 else {"fspread": float(10.0 ** rng.uniform(np.log10(0.05), np.log10(3.0)))}
     return {
         "D": D,
@@ -131,6 +136,7 @@ def gen(rng, tier, index):
         "kg": rng.integers(-2, 3, size=(M, d)),
         "kq": rng.integers(-2, 3, size=(nq, d)),
         "bigq": bool(bigq),
+        "near_query": near,
     }
 
 
@@ -481,6 +487,8 @@ def run(case, j):
     j.close("score_samples == log of the documented mixture", s, want, scale, {"fp_events": [e[:2] for e in fpq.in_skmatter()[:3]]})
     j.close("score == sum of the log-densities", float(est.score(Q.copy())), float(np.sum(s)), 1e-9 * (1 + abs(float(np.sum(s)))))
     j.note("queries_judged", len(Q))
+    if case.get("near_query") and not np.any(np.all(D == Q[0][None, :], axis=1)):
+        j.note("queries_within_1e-6_relative_of_a_descriptor")
     j.note("queries_sharing_a_coordinate", int(sum(bool(np.any(D == q[None, :])) for q in Q)))
     # ---- relations
     tol = 1e-6 * (1 + np.abs(s))
